@@ -387,7 +387,7 @@ def run_tlc_proto(tpath, workdir, idx, timeout=1800):
     vout = os.path.join(workdir, f"proto{idx}.json")
     env["VIOLOUT"] = vout
     if os.path.getsize(tpath) == 0:
-        return {"drift": [], "nchecked": 0}
+        return {"drift": [], "nchecked": 0, "nfaults": 0}
     p = subprocess.run(["tlc", "-workers", "1", "-metadir", md, "-cleanup", "-noGenerateSpecTE",
                         "-config", "TraceProto.cfg", "TraceProto.tla"], cwd=SPEC, env=env,
                        stdout=subprocess.PIPE, stderr=subprocess.STDOUT, text=True, timeout=timeout)
@@ -412,13 +412,14 @@ def run_and_validate(scens, nshards=NCPU, keep=False, proto=False):
     with ThreadPoolExecutor(max_workers=nshards) as ex:
         vres = list(ex.map(lambda a: run_tlc_trace(a[1][0], work, a[0]), enumerate(res)))
     t2 = time.time()
-    drift, nchecked = [], 0
+    drift, nchecked, nfaults = [], 0, 0
     if proto:
         with ThreadPoolExecutor(max_workers=nshards) as ex:
             pres = list(ex.map(lambda a: run_tlc_proto(a[1][0], work, a[0]), enumerate(res)))
         for r in pres:
             drift.extend(r["drift"])
             nchecked += r["nchecked"]
+            nfaults += r.get("nfaults", 0)
     t3 = time.time()
     viol = []
     events = 0
@@ -427,7 +428,7 @@ def run_and_validate(scens, nshards=NCPU, keep=False, proto=False):
         events += n
     hangs = [h for _, hs in res for h in hs]
     out = dict(viol=viol, hangs=hangs, events=events, traces=len(scens), wall_h=t1 - t0, wall_t=t2 - t1, workdir=work,
-               drift=drift, proto_calls=nchecked, wall_p=t3 - t2)
+               drift=drift, proto_calls=nchecked, proto_faults=nfaults, wall_p=t3 - t2)
     if not keep:
         shutil.rmtree(work, ignore_errors=True)
     return out
